@@ -1,6 +1,7 @@
 import PlumVerif.Model.Frame
 import PlumVerif.Spec.C01
 import PlumVerif.Model.ReaderSession
+import PlumVerif.Model.ReaderChunks
 /- line-protocol front end for the frame envelope model -/
 namespace PlumVerif
 
@@ -29,6 +30,17 @@ def frameOps : List String → Option String
     pure (String.intercalate ";" ((session cs).map fun
       | .call o n => Outcome.show (o, n)
       | .abandoned n => s!"A {n}"))
+  | ["readchunks", eager, chunks] => do
+    -- chunks joined by '+' ('-' = an empty chunk); eager: '-' or comma-separated numbers of chunks that have arrived before call i.
+    -- answer per call: outcome, consumed, '@', the suspensions of that call (S|H|B + bytes buffered while it waits)
+    let cs ← (chunks.splitOn "+").mapM parseHex
+    let eg ← if eager = "-" then some [] else (eager.splitOn ",").mapM String.toNat?
+    let outs := readChunks eg cs
+    let trs := traceChunksFuel (cs.flatten.length + 1) false eg [] cs
+    let showTr (t : List (RState × Nat)) : String :=
+      if t.isEmpty then "-" else String.intercalate "," (t.map fun p =>
+        (match p.1 with | .scanning => "S" | .header => "H" | .body .. => "B") ++ toString p.2 ++ "/" ++ toString (p.1.demand p.2))
+    pure (String.intercalate ";" ((outs.zip trs).map fun p => Outcome.show p.1 ++ " @ " ++ showTr p.2))
   | ["encode", k, rc, sd, et, ev, p] => do
     let pl ← parseHex p
     let k ← k.toNat?; let rc ← rc.toNat?; let sd ← sd.toNat?; let et ← et.toNat?; let ev ← ev.toNat?
